@@ -20,10 +20,10 @@ for d in sorted(glob.glob('/verif/seeded/*/')):
     r = sh(f'git -C /repo apply --whitespace=nowarn {patch}')
     if r.returncode != 0:
         print(sid, 'PATCH DOES NOT APPLY', r.stderr.strip()[:200])
-        sh('git -C /repo checkout -- .')
+        sh('git -C /repo checkout -- . && git -C /repo clean -fdq')
         continue
     out = sh('./check all quick').stdout
-    sh('git -C /repo checkout -- .')
+    sh('git -C /repo checkout -- . && git -C /repo clean -fdq')
     fired = {}
     prop = None
     for line in out.splitlines():
